@@ -59,6 +59,17 @@ class ManifestLoader::ManifestLoaderImpl: public ParseActions {
   std::unique_ptr<Manifest> manifest;
   llvm::SmallVector<IncludeEntry, 4> includeStack;
 
+  /// The build declaration being parsed. Its paths are evaluated, and the
+  /// command is created, at the end of the build block.
+  struct PendingBuild {
+    Rule* rule = nullptr;
+    SmallVector<Token, 8> outputTokens;
+    SmallVector<Token, 8> inputTokens;
+    unsigned numExplicitInputs = 0;
+    unsigned numImplicitInputs = 0;
+    llvm::StringMap<std::string> parameters;
+  } pendingBuild;
+
   // Cached buffers for temporary expansion of possibly large strings. These are
   // lifted out of the function body to ensure we don't blow up the stack
   // unnecesssarily.
@@ -342,22 +353,57 @@ public:
       rule = manifest->getPhonyRule();
     }
 
+    // The paths are evaluated with the bindings of the build block in scope
+    // (they take precedence over the file level ones), so they can only be
+    // resolved once the block has been parsed; see actOnEndBuildDecl().
+    pendingBuild.rule = rule;
+    pendingBuild.outputTokens.assign(outputTokens.begin(), outputTokens.end());
+    pendingBuild.inputTokens.assign(inputTokens.begin(), inputTokens.end());
+    pendingBuild.numExplicitInputs = numExplicitInputs;
+    pendingBuild.numImplicitInputs = numImplicitInputs;
+    pendingBuild.parameters.clear();
+
+    return &pendingBuild;
+  }
+
+  /// Evaluate a path of the pending build declaration: the bindings of the
+  /// build block first, then the enclosing scopes.
+  void evalBuildPath(const Token& value, SmallVectorImpl<char>& storage) {
+    assert(value.tokenKind == Token::Kind::String && "invalid token kind");
+
+    llvm::raw_svector_ostream result(storage);
+    evalString(nullptr, StringRef(value.start, value.length), result,
+               /*Lookup=*/ [&](void*, StringRef name, raw_ostream& result) {
+                 auto it = pendingBuild.parameters.find(name);
+                 if (it != pendingBuild.parameters.end()) {
+                   result << it->second;
+                 } else {
+                   result << getCurrentScope().lookupBinding(name);
+                 }
+               },
+               /*Error=*/ [this, &value](const std::string& msg) {
+                 error(msg, value);
+               });
+  }
+
+  /// Create the command for the pending build declaration.
+  Command* createPendingCommand() {
     // Resolve all of the inputs and outputs.
     SmallVector<Node*, 8> outputs;
     SmallVector<Node*, 8> inputs;
-    for (const auto& token: outputTokens) {
+    for (const auto& token: pendingBuild.outputTokens) {
       // Evaluate the token string.
       SmallString<256> path;
-      evalString(token, getCurrentScope(), path);
+      evalBuildPath(token, path);
       if (path.empty()) {
         error("empty output path", token);
       }
       outputs.push_back(manifest->findOrCreateNode(workingDirectory, path));
     }
-    for (const auto& token: inputTokens) {
+    for (const auto& token: pendingBuild.inputTokens) {
       // Evaluate the token string.
       SmallString<256> path;
-      evalString(token, getCurrentScope(), path);
+      evalBuildPath(token, path);
       if (path.empty()) {
         error("empty input path", token);
       }
@@ -365,7 +411,10 @@ public:
     }
 
     Command* decl = new (manifest->getAllocator())
-      Command(rule, outputs, inputs, numExplicitInputs, numImplicitInputs);
+      Command(pendingBuild.rule, outputs, inputs,
+              pendingBuild.numExplicitInputs, pendingBuild.numImplicitInputs);
+    decl->getParameters() = std::move(pendingBuild.parameters);
+    pendingBuild.parameters.clear();
     manifest->getCommands().push_back(decl);
 
     return decl;
@@ -374,7 +423,8 @@ public:
   virtual void actOnBuildBindingDecl(BuildResult abstractDecl,
                                      const Token& nameTok,
                                      const Token& valueTok) override {
-    Command* decl = static_cast<Command*>(abstractDecl);
+    assert(abstractDecl == &pendingBuild);
+    (void)abstractDecl;
 
     StringRef name(nameTok.start, nameTok.length);
 
@@ -386,7 +436,7 @@ public:
     SmallString<256> value;
     evalString(valueTok, getCurrentScope(), value);
     
-    decl->getParameters()[name] = value.str();
+    pendingBuild.parameters[name] = value.str();
   }
 
   struct LookupContext {
@@ -470,7 +520,12 @@ public:
   
   virtual void actOnEndBuildDecl(BuildResult abstractDecl,
                                 const Token& startTok) override {
-    Command* decl = static_cast<Command*>(abstractDecl);
+    assert(abstractDecl == &pendingBuild);
+    (void)abstractDecl;
+
+    // All the bindings of the block are known now: resolve the paths and
+    // create the command.
+    Command* decl = createPendingCommand();
 
     // Resolve the build decl parameters by evaluating in the context of the
     // rule and parameter overrides.
